@@ -11,7 +11,7 @@ Definition posts_eqb (a b : list (Z * list bool)) : bool :=
   list_eqb (pair_eqb Z.eqb (list_eqb Bool.eqb)) a b.
 
 Definition is_conc (o : op) : bool :=
-  match o with OConc _ _ | OConcN _ _ _ | OConcW _ _ => true | _ => false end.
+  match o with OConc _ _ | OConcN _ _ _ | OConcW _ _ | OConcS _ _ _ _ => true | _ => false end.
 
 (* the events of chain number c of a concurrent-chain block must be exactly [spec] when all
    its tasks complete at most once (the harness fires every later callback) *)
@@ -21,11 +21,22 @@ Definition concw_ok (chains : list (list beh)) (l : list sev) : bool :=
              then list_eqb ev_eqb (chain_events (fst ct) l) (spec (snd ct))
              else true) (number_chains 0 chains).
 
+(* shared task list under concurrency: each of the ns*rounds chains ran [spec tasks], no more,
+   no less (every task of such a block completes exactly once), and nothing else was seen *)
+Definition concs_ok (ns rounds : Z) (tasks : list beh) (l : list sev) : bool :=
+  let n := (Z.to_nat ns * Z.to_nat rounds)%nat in
+  forallb (fun c => list_eqb ev_eqb (chain_events (zn c) l) (spec tasks)) (seq 0 n)
+  && forallb (fun e => match e with
+                       | STask c _ _ | SFinal c _ _ => in_range 0 c (zn n)
+                       | _ => false
+                       end) l.
+
 Definition conc_ok (o : op) (l : list sev) : bool :=
   match o with
   | OConc _ progs => accepts_conc progs l
   | OConcN _ np n => accepts_conc (uniform_progs np n) l
   | OConcW _ chains => concw_ok chains l
+  | OConcS _ ns rd tasks => concs_ok ns rd tasks l
   | _ => true
   end.
 
@@ -78,18 +89,28 @@ Definition poster_ids : list Z := map zn (seq 0 nposters).
 (* first declaration of a chain id wins, as in the harness *)
 Inductive ckind := KSche | KSimple | KWait.
 
-Fixpoint chains_of (ops : list op) (seen : list Z) : list (Z * (ckind * list beh)) :=
+Definition ckind_of (r : Z) : ckind := if r <? 2 then KSche else if r =? 2 then KSimple else KWait.
+
+(* [ls]: the shared lists declared so far (first declaration wins); a chain over a shared list
+   is held to the same standard as a chain over a list of its own *)
+Fixpoint chains_of (ops : list op) (seen : list Z) (ls : list (Z * list beh)) : list (Z * (ckind * list beh)) :=
   match ops with
   | [] => []
+  | OList l t :: r => chains_of r seen (if zmem l (map fst ls) then ls else (l, t) :: ls)
   | o :: r =>
       match match o with
             | OChain c t | OChainB c t => Some (c, (KSche, t))
             | OSimple c t => Some (c, (KSimple, t))
             | OWait c t => Some (c, (KWait, t))
+            | OShare c l k =>
+                match find (fun x => Z.eqb (fst x) l) ls with
+                | Some x => Some (c, (ckind_of k, snd x))
+                | None => None
+                end
             | _ => None
             end with
-      | Some (c, kt) => if zmem c seen then chains_of r seen else (c, kt) :: chains_of r (c :: seen)
-      | None => chains_of r seen
+      | Some (c, kt) => if zmem c seen then chains_of r seen ls else (c, kt) :: chains_of r (c :: seen) ls
+      | None => chains_of r seen ls
       end
   end.
 
@@ -157,7 +178,7 @@ Definition chain_ok (stop : bool) (f : list (Z * Z * Z)) (all : list sev) (ct : 
 
 Definition declared (cs : list (Z * (ckind * list beh))) (e : sev) : bool :=
   match e with
-  | SExec _ _ | SMgr _ => true
+  | SExec _ _ | SMgr _ | SId _ => true
   | SPostFail _ _ | SBad _ => false
   | STask c _ _ | SFinal c _ _ | SRet c | SEsc c | SHang c => zmem c (map fst cs)
   end.
@@ -195,7 +216,7 @@ Definition monitor_obs (ops : list op) (per : list (list sev)) (dr : list sev)
   let all := script_events ops per ++ dr in
   let ex := exec_events all in
   let stop := has_stop ops in
-  let cs := chains_of ops [] in
+  let cs := chains_of ops [] [] in
   gor && negb esc
   && conc_blocks_ok ops per
   && forallb (declared cs) all
